@@ -105,4 +105,4 @@ def verdict(desc):
     return out
 
 
-SUBS = [Sub("prandtl_glauert", config(), verdict, quick=240, thorough=5000)]
+SUBS = [Sub("prandtl_glauert", config(), verdict, quick=640, thorough=10000)]
